@@ -28,6 +28,16 @@ func baseSrvConfig(p *Plan, r *RNG) {
 	p.Cfg.Users = []User{{"u1", "pw-one"}, {"u2", "pw-two"}, {"u3", "pw-three"}}
 }
 
+// eofWithData: stream reads hand out their last bytes together with io.EOF (what a tls.Conn
+// does when the close_notify is already there; legal for every io.Reader)
+func eofWithData(p *Plan) {
+	if p.Cfg.Extra == nil {
+		p.Cfg.Extra = map[string]int64{}
+	}
+	p.Cfg.Extra["eof_with_data"] = 1
+	p.Flavor += "+eof-with-data"
+}
+
 func addClients(p *Plan, r *RNG, n int) {
 	for i := 0; i < n; i++ {
 		ip := fmt.Sprintf("10.0.1.%d", 1+i)
